@@ -34,6 +34,46 @@ chk("C02",
     "symbolic execution of the real Array operators on z3-backed numpy proxies; SMT validity of physical equality per path",
     "DESIGN.md section 5 C02")
 
+ALG = ("Bounded symbolic model checking of the implementation: the real osyris code runs on arrays whose elements are z3 variables; "
+       "for every configuration of the stated finite skeleton (operator, operand kinds, dtypes, shapes, unit pairs) each path's obligation "
+       "is discharged by z3 for ALL element values (unsat of the negation); counterexamples are replayed on the un-instrumented code.")
+
+chk("C06", ALG + " Rows carry provenance symbols, so a result row mixing two source rows is a structural mismatch; sort keys are symbolic "
+    "and every ordering/tie pattern is a path on which the sorted order is proved from the path condition.",
+    TRUST + " Index objects are an enumeration for n<=3 rows (stated in the evidence).",
+    "symbolic execution of Datagroup indexing/sortby/insert on z3-backed arrays with provenance symbols; SMT proof of sortedness per ordering path",
+    "DESIGN.md section 5 C06")
+chk("C07", ALG + " Each element comparison forks, so every verdict pattern is a path; the concrete verdict must be entailed by the path "
+    "condition read physically through an independent unit table.",
+    TRUST + " A dead band of relative width 1e-9 around equality is left free when a unit conversion is involved.",
+    "symbolic execution of the real comparison/logical operators; SMT entailment of each verdict from the path condition", "DESIGN.md section 5 C07")
+chk("C08", ALG + " Conversions, round trips and chains are proved for all values and all ordered unit pairs of the table; the catalogue of "
+    "osyris-defined units is compared (through Array.to) with independently typed-in IAU/CODATA values.",
+    TRUST + " Catalogue tolerance 1e-3 (published values differ at 1e-4); a fresh HOME makes osyris read /repo's defaults.py.",
+    "symbolic execution of Array.to/Vector.to; SMT validity of physical equality; finite catalogue comparison", "DESIGN.md section 5 C08")
+chk("C09", ALG + " Vector results are compared component-wise with the Array operation executed in the same run; norm, dot and cross are "
+    "checked against their algebraic definitions and laws as physical quantities (polynomial identities decided by z3 after monomial abstraction, "
+    "falling back to nlsat).",
+    TRUST + " Lifting is relative to the Array layer (C02/C07).",
+    "symbolic execution of Vector operators, norm, dot, cross; SMT (LRA via sound monomial abstraction, NRA fallback)", "DESIGN.md section 5 C09")
+chk("C10", ALG + " The catalogue of ~50 numpy functions is fixed in harness/c10.py; the oracle applies the same function to the operands "
+    "expressed in CGS and checks the dimensional rule of the function's class.",
+    TRUST + " Functions outside the catalogue are not claimed. Known finding: plain numbers/ndarrays mixed with dimensional Arrays.",
+    "symbolic execution of Array._wrap_numpy through the numpy protocols; SMT validity of physical equality + dimensional rule", "DESIGN.md section 5 C10")
+chk("C16", ALG + " Positions, origin, radius/sizes and payloads are symbolic; every inside/outside pattern is a path and the kept rows must be "
+    "exactly those the path condition places inside the region (physically, with unit conversion).",
+    TRUST + " n<=2 rows per group; 3-D.",
+    "symbolic execution of extract_sphere/extract_box; SMT entailment of row membership (NRA for the sphere)", "DESIGN.md section 5 C16")
+chk("C17", ALG + " In-place operators, copies, deep copies, container copies and slice views are run on shared symbolic data and compared with a "
+    "reference aliasing model, including all sequences of <=2 (thorough 3) operations from an 8-letter alphabet.",
+    TRUST + " In-place results numpy refuses to cast are outside the premise (cut).",
+    "symbolic execution of in-place/copy/view operations against an aliasing reference model; SMT validity per path", "DESIGN.md section 5 C17")
+chk("C20", "Dictionary semantics: CrossHair (z3-backed symbolic execution) confirms over all paths one inductive step (arbitrary valid pre-state over keys "
+    "{a,b,c}, one of 8 operations with arbitrary arguments) for Datagroup and Dataset against a Python dict model, with a reachability twin per "
+    "contract. Equality: the real Datagroup.__eq__ runs on symbolic members; on every path the verdict must be the physical one.",
+    TRUST + " CrossHair 0.0.110 trusted; contracts use stand-in values with .shape/.name.",
+    "CrossHair contracts (inductive step) + symbolic execution of __eq__ with SMT entailment", "DESIGN.md section 5 C20")
+
 for pid in ["C01", "C03", "C04", "C05", "C06", "C07", "C08", "C09", "C10", "C11", "C12", "C13", "C14", "C15", "C16",
             "C17", "C18", "C19", "C20"]:
     NA.setdefault(pid, "check under construction in this round (solver-based harness designed in DESIGN.md section 5, not yet registered)")
